@@ -45,7 +45,7 @@ static void obs_fini(lp_id_t me, const struct vm_state *s)
 	__atomic_fetch_add(&R[me].finis, 1, __ATOMIC_RELAXED);
 	R[me].fini_digest = vm_digest(me, s);
 	R[me].fini_pred = vm_can_end(me, s);
-	R[me].fini_count = s->count;
+	R[me].fini_count = s ? s->count : 0;
 	R[me].fini_thread = (int)rid;
 }
 static void obs_ev(const struct vm_call *c, const struct vm_state *after)
@@ -56,7 +56,11 @@ static void obs_ev(const struct vm_call *c, const struct vm_state *after)
 
 static uint64_t cb_state_digest(struct lp_ctx *lp)
 {
-	return lp->state_pointer ? vm_digest((lp_id_t)(lp - lps), lp->state_pointer) : 0;
+	if(lp->state_pointer)
+		return vm_digest((lp_id_t)(lp - lps), lp->state_pointer);
+	/* an LP without a registered state still has rollbackable state: its library generator context */
+	const uint64_t *w = lp->rng_ctx->state;
+	return w[0] ^ (w[1] * 3) ^ (w[2] * 5) ^ (w[3] * 7);
 }
 static bool cb_ref_event(uint64_t lp, uint64_t k, double *ts, uint32_t *type, uint32_t *size, uint64_t *plh)
 {
